@@ -190,6 +190,8 @@ type behaviour struct {
 	// sensible can be exchanged again
 	corrupts bool
 	do       func(p *peer.Peer, frames []peer.Frame)
+	// oneMore: after do, one more call is issued on the client (it is checked like the pending ones)
+	oneMore bool
 }
 
 var streamKinds = []string{"tcp", "unix"}
@@ -204,6 +206,8 @@ func behaviours() []behaviour {
 			}
 		}},
 		{name: "stays silent", kinds: allKinds, do: func(p *peer.Peer, fs []peer.Frame) {}},
+		{name: "shuts down its receiving side and stays silent (the next write of the client fails, its reads see nothing); one more call follows", kinds: []string{"unix"}, lost: true, oneMore: true,
+			do: func(p *peer.Peer, fs []peer.Frame) { p.CloseRead() }},
 		{name: "closes the connection", kinds: connKinds, lost: true, do: func(p *peer.Peer, fs []peer.Frame) { p.Drop() }},
 		{name: "resets the connection", kinds: []string{"tcp", "ws"}, lost: true, do: func(p *peer.Peer, fs []peer.Frame) { p.Reset() }},
 		{name: "ends the session with a websocket close frame 1000 (normal closure)", kinds: []string{"ws"}, lost: true, do: func(p *peer.Peer, fs []peer.Frame) { p.CloseFrame(1000) }},
@@ -330,6 +334,10 @@ func TestPeerFaults(t *testing.T) {
 				}
 			}
 			b.do(p, frames)
+			if b.oneMore {
+				time.Sleep(2 * time.Millisecond)
+				calls = append(calls, startCall(client, "quick", fmt.Sprintf("t-%d-more", id), t0))
+			}
 			acted = time.Since(t0)
 		}
 		needTerminator := !(b.lost || b.answered || b.rejected)
